@@ -53,6 +53,9 @@ type vTransport struct {
 	// slowReadRelease: a Read blocked at the end of the input returns only this long after Close
 	slowReadRelease time.Duration
 	closeErr    error // returned by Close
+	// endTogether: the Read that delivers the last input bytes also reports the end (n > 0 together with the error),
+	// as io.Reader allows and crypto/tls does on close_notify
+	endTogether bool
 
 	// gates: input from offset gatePos[i] on is delivered only once gateWrites[i] Write calls have been seen
 	gatePos    []int
@@ -162,6 +165,16 @@ func (t *vTransport) Read(p []byte) (int, error) {
 	}
 	copy(p, t.in[t.pos:t.pos+n])
 	t.pos += n
+	if t.endTogether && t.pos == len(t.in) {
+		switch t.endMode {
+		case vEndEOF:
+			return n, io.EOF
+		case vEndUnexp:
+			return n, io.ErrUnexpectedEOF
+		case vEndForeign:
+			return n, vErrForeign
+		}
+	}
 	return n, nil
 }
 
